@@ -12,7 +12,7 @@ CPUS = {
     "8008": (1, 3, 140, "quick", [], False),
     "1802": (1, 3, 140, "quick", ["CLASS_MASK=0xff", "CLASS_VAL=0x68"], False),
     "1802.prefix68": (1, 3, 140, "quick", ["CLASS_MASK=0xff", "CLASS_VAL=0x68", "CLASS_ONLY"], False),
-    "pdp11": (2, 6, 140, "thorough", ["STRINGS_ABSTRACT", "STRINGS_HASH"], True),   # reads the following word before it knows the addressing mode needs it: locality is decided as 2-safety
+    "pdp11": (2, 6, 140, "thorough", ["STRINGS_ABSTRACT"], True),   # reads the following word before it knows the addressing mode needs it: locality is decided as 2-safety
     "tms9900": (2, 6, 140, "thorough", [], False),
     # z80 (reads ahead, 2-safety form) was tried and does not finish (out of memory at 10 GB, timeout at 2400 s with 30 GB): not decided
 }
@@ -27,6 +27,9 @@ for cpuname, (unit, maxlen, unw, tier, tables, two) in CPUS.items():
                         functions=[("disasm_%s" % cpu, "disasm/%s.cpp" % cpu, "harness; table scans closed by unwinding %d with unwinding assertions" % unw),
                                    ("table_%s[]" % cpu, "table/%s.cpp" % cpu, "data")],
                         defines=defs, unwind=unw, checks=CH, timeout=(2400 if two else 900), mem_gb=(30 if two else 10), tier=tier, extra_cbmc=(["--object-bits", "14"] if two else [])))
+GROUPS.append(Group(name="C08/disasm_range_tms9900", unity="C08/u_range.cpp", entry="h_range",
+                    functions=[("disasm_range_tms9900", "disasm/tms9900.cpp", "harness+2 loop-contracts, any range (function text extracted verbatim)"), ("disasm_tms9900", "disasm/tms9900.cpp", "replaced by its contract (length 2/4/6), discharged by C08/disasm_tms9900")],
+                    loops="C08/range9900.loops.json", expected_loops=2, unwind=14, checks=CH, timeout=900))
 GROUPS.append(Group(name="C08/UtilContext.disasm.pages[bounded]", unity="C19/u_util.cpp", entry="h_disasm_pages",
                     functions=[("UtilContext::disasm(uint32_t, uint32_t)", "core/UtilContext.cpp", "harness, bounded")], defines=["WIDTH=1"],
                     unwind=8, checks=CH, timeout=900, bounded="address ranges touching at most 4 pages of 64 KiB; which pages are in use and their used sub-ranges symbolic"))
